@@ -55,9 +55,9 @@ CLAIMS.update({
         design_ref="§5 C07", technique="Lean 4 theorems + exhaustive conflict scenarios + outside-writer differential programs",
         note=BUF_NOTE + "After a forced flush has reported a conflict for a file, what later writes to that file do is not claimed."),
     "C15": dict(
-        text="Theorem C15_size_exact: for EVERY history (operations, both context kinds in any nesting, capacity changes, forced and failing flushes, outside writes) from the initial state, reported size = sum of encoded lengths of the buffered files (serialized) / number of buffered files with unflushed modifications (shared memory), and no file is buffered twice - an invariant proved over all 9 kinds of steps. C15_capacity_restored / C15_set_capacity. 'size <= capacity after every operation' and 'size 0 outside contexts' are decided by the twin oracle and correspondence (not yet theorems).",
-        design_ref="§5 C15", technique="Lean 4 invariant by induction over histories + correspondence on size/capacity after every step + independent recomputation from twin files",
-        note=BUF_NOTE + "Partial: boundedness and zero-outside are checked, not proved."),
+        text="Theorems over the buffer machine SC/Buffer.lean, each for EVERY history (operations through root and child handles, both context kinds in any nesting, capacity changes, forced and failing flushes, new objects, outside writes) from the initial state, both strategies: C15_size_exact (reported size = sum of encoded lengths of the buffered files / number of buffered files with unflushed modifications; no file buffered twice), C15_bounded_and_zero_outside (after every operation size <= capacity; when the backend-wide counter is 0 and no object is inside obj.buffered the buffer is empty and the size is 0 - via the invariant 'every buffered file has a registered object that is currently buffered', proved through all 9 kinds of steps), C15_forced_flush_zero (a capacity-forced flush leaves size 0), C15_capacity_restored / C15_set_capacity / C15_enter_pushes. 'A forced flush loses nothing' is C05/C06's content theorem plus the twin oracle.",
+        design_ref="§5 C15", technique="Lean 4 invariants by induction over histories + correspondence on size/capacity after every step + independent recomputation from twin files + I/O-fault scenarios",
+        note=BUF_NOTE + "I/O errors during a flush (OSError) are outside the Lean machine; they are exercised by the fault scenarios on the real code."),
 })
 CLAIMS["C17"]["text"] = ("Theorems C17_read_pure / C17_reads_pure: in the model no read operation (any handle, any state, returned or raised) changes any backend or creates a missing one; "
     "buffered: C17_readonly_history_never_writes - from any state whose buffered copies are clean, ANY history of reads, context enters/exits of both kinds in any nesting, capacity changes and new objects (with every flush they trigger) leaves content, metadata and stamp of every file unchanged, both strategies (an invariant proved through every function of the buffer machine) - and C17_buffered_readonly_not_written_*. Tied by correspondence, an oracle that re-reads the resource after every read, and the buffered twin oracle "
